@@ -27,7 +27,9 @@ static void yieldpt(lrng *r){ if(!g_yield)return; uint64_t x=lr(r); if((x&7)==0)
 
 typedef struct { int ch; long rate; int managed; float q; long mx,nom,mn; } ecfg;
 static const ecfg CFG[]={ {1,8000,0,0.1f,0,0,0},{2,44100,0,0.4f,0,0,0},{2,48000,1,0,-1,128000,-1},{6,44100,0,0.3f,0,0,0},
-  {1,22050,0,0.9f,0,0,0},{2,32000,1,0,96000,64000,48000},{3,16000,0,0.5f,0,0,0},{2,44100,0,-0.1f,0,0,0} };
+  {1,22050,0,0.9f,0,0,0},{2,32000,1,0,96000,64000,48000},{3,16000,0,0.5f,0,0,0},{2,44100,0,-0.1f,0,0,0},
+  /* rates whose spectrum extends beyond the built-in threshold-of-hearing and other per-band tables */
+  {2,96000,0,0.5f,0,0,0},{1,64000,0,0.3f,0,0,0},{1,192000,0,0.2f,0,0,0} };
 #define NCFG ((int)(sizeof CFG/sizeof CFG[0]))
 
 typedef struct { int kind,cfg,sig; long n; uint64_t seed; const vbuf *in; uint64_t hash; vbuf *out; } job;
